@@ -118,7 +118,7 @@ def canon(value, _stack=None, _depth=0):
             return ['n', repr(value)]
         if abs(value) < 2 ** 63:
             return ['n', value]
-        return ['n', 'big:' + hashlib.sha256(str(value).encode()).hexdigest()[:12]]
+        return ['n', 'big:' + hashlib.sha256(hex(value).encode()).hexdigest()[:12]]
     if isinstance(value, _dt.datetime):
         return ['dt', value.isoformat()]
     if isinstance(value, _dt.date):
